@@ -410,7 +410,7 @@ func (c C02) evaluate(sc *C02Scenario) *sim.Outcome {
 	if sc.Victim < 0 || sc.Victim >= len(sc.Files) {
 		return out // shrunk into nonsense: nothing to check
 	}
-	sb, err := newSandbox()
+	sb, err := newSandbox(false)
 	if err != nil {
 		panic("harness: " + err.Error())
 	}
